@@ -141,14 +141,24 @@ func regenerate() *state {
 			continue
 		}
 		relSrc, _ := filepath.Rel(tmp, f)
+		// which files a generator run writes is found by looking at the directory before and after (not by reading
+		// the generator's messages, whose wording is not part of any contract)
+		var mine []string
 		for run := 0; run < 3; run++ {
 			before := map[string]bool{}
 			for _, g := range listGoFiles(filepath.Dir(f)) {
 				before[g] = true
 			}
 			out, err := sh(tmp, goenv, filepath.Join(bin, "ow-specgen"), "./"+relSrc)
-			for _, w := range regexp.MustCompile(`Writing to (\S+)`).FindAllStringSubmatch(out, -1) {
-				rel := filepath.Clean(w[1])
+			if run == 0 {
+				for _, g := range listGoFiles(filepath.Dir(f)) {
+					if !before[g] && strings.HasPrefix(filepath.Base(g), "generated_") {
+						rel, _ := filepath.Rel(tmp, g)
+						mine = append(mine, rel)
+					}
+				}
+			}
+			for _, rel := range mine {
 				a := produced[rel]
 				if a == nil {
 					a = &artefact{kind: "wrapper", rel: rel, source: relSrc, model: strings.TrimSuffix(strings.TrimPrefix(filepath.Base(rel), "generated_"), ".go")}
